@@ -5,9 +5,14 @@ import json
 import os
 
 HERE = os.path.dirname(os.path.dirname(os.path.abspath(__file__)))
+NOTES = json.load(open(os.path.join(HERE, "tools", "mutant_notes.json")))
 rows = []
 for f in sorted(glob.glob(os.path.join(HERE, "seeded", "*", "meta.json"))):
     m = json.load(open(f))
+    key = "%s-%s" % (m["property"], m["mutant"])
+    m.update(NOTES.get(key, {}))
+    m["breaks_property"] = m["property"]
+    json.dump(m, open(f, "w"), indent=1)
     det = [c for c, v in m.get("checks", {}).items() if v.get("detected")]
     miss = [c for c, v in m.get("checks", {}).items() if not v.get("detected")]
     rows.append((m["property"], m["mutant"], m.get("confirmed"), det, miss, m.get("needs", ""), m.get("what", "")))
